@@ -256,4 +256,112 @@ EXTRA = [
         self._fh.write(struct.pack('<L', size))
 
         # update header""", 'C06.c'),
+    # ---------------------------------------------------------------- C19
+    M('M-C19a-shift-mismatch', 'mapproxy/cache/compact.py', "size = val >> 40", "size = val >> 32", 'C19.a'),
+    M('M-C19a-size-word-2', 'mapproxy/cache/compact.py', """        self._fh.seek(offset)
+        return struct.unpack('<L', self._fh.read(4))[0]""", """        self._fh.seek(offset)
+        return struct.unpack('<L', self._fh.read(2))[0]""", 'C19.a'),
+    M('M-C19a-size-word-format', 'mapproxy/cache/compact.py', "fh.write(struct.pack('<L', len(data)))",
+      "fh.write(struct.pack('<H', len(data)))", 'C19.a'),
+    M('M-C19a-header-offset', 'mapproxy/cache/compact.py', """        fh.seek(24)
+        fh.write(struct.pack("<Q", filesize))""", """        fh.seek(20)
+        fh.write(struct.pack("<Q", filesize))""", 'C19.a'),
+    M('M-C19a-header-fields', 'mapproxy/cache/compact.py', "BUNDLE_V2_HEADER_STRUCT_FORMAT = '<4I3Q6I'",
+      "BUNDLE_V2_HEADER_STRUCT_FORMAT = '<4I3Q5I'", 'C19.a|C05.c'),
+    E('E-C19a-named-shift', 'mapproxy/cache/compact.py', "size = val >> 40", "size = val >> (5 * 8)", 'constant expression for 40'),
+    M('M-C19c-remove-first', 'mapproxy/script/defrag.py', """        stored_tiles = False
+
+        for y in range(128):""", """        stored_tiles = False
+        os.remove(bundle_file)
+
+        for y in range(128):""", 'C19.c'),
+    M('M-C19c-half-range', 'mapproxy/script/defrag.py', "tiles = [Tile((x, y, 0)) for x in range(128)]",
+      "tiles = [Tile((x, y, 0)) for x in range(64)]", 'C19.c'),
+    M('M-C19c-rename-unconditional', 'mapproxy/script/defrag.py', """        if stored_tiles:
+            os.rename(tmp_bundle + '.bundle', bundle_file)""", """        if True:
+            os.rename(tmp_bundle + '.bundle', bundle_file)""", 'C19.c'),
+    E('E-C19c-rename-locals', 'mapproxy/script/defrag.py', """        for y in range(128):
+            tiles = [Tile((x, y, 0)) for x in range(128)]""", """        for row in range(128):
+            tiles = [Tile((col, row, 0)) for col in range(128)]""", 'renamed loop variables'),
+    # ---------------------------------------------------------------- C07
+    M('M-C07a-shared-lock', 'mapproxy/util/ext/lockfile.py', "_flags = fcntl.LOCK_EX | fcntl.LOCK_NB",
+      "_flags = fcntl.LOCK_SH | fcntl.LOCK_NB", 'C07.a'),
+    M('M-C07a-publish-before-lock', 'mapproxy/util/ext/lockfile.py', """        try:
+            _lock_file(fp)
+        except Exception as ex:
+            try:
+                fp.close()
+            except Exception:
+                pass
+            raise ex
+
+        self._fp = fp""", """        self._fp = fp
+        try:
+            _lock_file(fp)
+        except Exception as ex:
+            try:
+                fp.close()
+            except Exception:
+                pass
+            raise ex
+""", 'C07.a'),
+    M('M-C07a-failure-not-raised', 'mapproxy/util/ext/lockfile.py', """            try:
+                fp.close()
+            except Exception:
+                pass
+            raise ex
+
+        self._fp = fp""", """            try:
+                fp.close()
+            except Exception:
+                pass
+
+        self._fp = fp""", 'C07.a'),
+    M('M-C07b-revert-D6', 'mapproxy/util/ext/lockfile.py', """        if (path_stat.st_dev, path_stat.st_ino) != (file_stat.st_dev, file_stat.st_ino):
+            raise LockError("Lock file {0} was replaced".format(file.name))
+""", """        if (path_stat.st_dev, path_stat.st_ino) != (file_stat.st_dev, file_stat.st_ino):
+            pass
+""", 'C07.b', 'revert of fix D6 (the comparison no longer rejects)'),
+    E('E-C07b-compare-other-order', 'mapproxy/util/ext/lockfile.py',
+      "if (path_stat.st_dev, path_stat.st_ino) != (file_stat.st_dev, file_stat.st_ino):",
+      "if (file_stat.st_ino, file_stat.st_dev) != (path_stat.st_ino, path_stat.st_dev):", 'operand order'),
+    M('M-C07c-unlock-no-release', 'mapproxy/util/lock.py', """                except OSError:
+                    self._lock.close()
+            else:
+                self._lock.close()""", """                except OSError:
+                    self._lock.close()
+            else:
+                pass""", 'C07.c'),
+    M('M-C07c-exit-conditional', 'mapproxy/util/lock.py', """    def __exit__(self, _exc_type, _exc_value, _traceback):
+        self.unlock()
+
+    def _try_lock(self):""", """    def __exit__(self, _exc_type, _exc_value, _traceback):
+        if _exc_type is None:
+            self.unlock()
+
+    def _try_lock(self):""", 'C07.c'),
+    M('M-C07c-no-with', 'mapproxy/cache/compact.py', """        with FileLock(self.lock_filename, directory_permissions=self.directory_permissions,
+                      file_permissions=self.file_permissions, remove_on_unlock=True):
+            with self.index().readwrite() as idx:
+                x, y = self._rel_tile_coord(tile.coord)
+                idx.remove_tile_offset(x, y)
+""", """        lck = FileLock(self.lock_filename, directory_permissions=self.directory_permissions,
+                       file_permissions=self.file_permissions, remove_on_unlock=True)
+        lck.lock()
+        with self.index().readwrite() as idx:
+            x, y = self._rel_tile_coord(tile.coord)
+            idx.remove_tile_offset(x, y)
+        lck.unlock()
+""", 'C07.c|C08.d', 'lock taken without with/try-finally: not released when the body raises'),
+    M('M-C07d-timeout-early', 'mapproxy/util/lock.py', "if current_time < stop_time:", "if current_time > stop_time:", 'C07.d'),
+    M('M-C07d-locked-in-handler', 'mapproxy/util/lock.py', """                    raise LockTimeout('another process is still running with our lock')
+            else:
+                self._locked = True""", """                    raise LockTimeout('another process is still running with our lock')
+            self._locked = True""", 'C07.d'),
+    E('E-C07e-tries-gt', 'mapproxy/util/lock.py', "if tries >= self.n:", "if tries > self.n:", 'one more retry'),
+    E('E-C07e-descending', 'mapproxy/util/lock.py', "i = (i+1) % self.n", "i = (i-1) % self.n", 'descending slot order'),
+    M('M-C07e-step-two', 'mapproxy/util/lock.py', "i = (i+1) % self.n", "i = (i+2) % self.n", 'C07.e'),
+    E('E-C07f-commuted', 'mapproxy/cache/base.py', "max_lock_time=self.lock_timeout + 10,", "max_lock_time=10 + self.lock_timeout,",
+      'commuted sum'),
+    M('M-C07f-cleanup-newer', 'mapproxy/util/lock.py', "if os.path.getmtime(name) < expire_time:", "if os.path.getmtime(name) > expire_time:", 'C07.f'),
 ]
